@@ -67,10 +67,33 @@ def run(ck, F, tier):
                     owner = b.path.split("::{closure")[0]
                     in_closure = False
                     writers.setdefault(owner, []).append((l["f"], n["sp"]))
+    # the collector is do_run together with the helpers that only it (transitively) calls; anything else writing an accumulator
+    # (in particular code reachable from the worker threads) breaks the single-writer discipline
+    callers = {}
+    for b in F.find_bodies(r"(simulation|cli|c_api)::.*"):
+        if not b.hir:
+            continue
+        owner = b.path.split("::{closure")[0]
+        for n in walk(b.value):
+            if n.get("k") in ("call", "mcall"):
+                cp = callee(n)
+                if cp:
+                    callers.setdefault(cp, set()).add(owner)
+                    if n.get("inst"):
+                        callers.setdefault(n["inst"], set()).add(owner)
+            if n.get("k") == "path" and n.get("res") == "def" and str(n.get("dk", "")).startswith(("Fn", "AssocFn")):
+                callers.setdefault(n["def"], set()).add(owner)      # taken as a function value: may be called from there
     allowed = {T + "do_run"}
+    changed = True
+    while changed:
+        changed = False
+        for o in writers:
+            if o not in allowed and callers.get(o) and callers[o] <= allowed:
+                allowed.add(o)
+                changed = True
     bad = {o: v for o, v in writers.items() if o not in allowed}
-    ck.inst("G1", "accumulator-writers", not bad and T + "do_run" in writers, F.body(T + "do_run").span,
-            "accumulator fields are assigned in %s only" % sorted(writers) if not bad else "also written in %s" % sorted(bad),
+    ck.inst("G1", "accumulator-writers", not bad and bool(writers), F.body(T + "do_run").span,
+            "accumulator fields are assigned only in the collector (do_run and helpers called from nowhere else): %s" % sorted(writers) if not bad else "also written in %s" % sorted(bad),
             {"writers": {k: len(v) for k, v in writers.items()}})
     # the worker thread body shares nothing mutable with the collector: its only output is results_tx.send
     wb = F.body(W + "work")
@@ -80,8 +103,11 @@ def run(ck, F, tier):
 
     # ---- G2 / G3 via the trace of do_run ---------------------------------------------------------------
     rb = F.body(T + "do_run")
-    tr = SiteTracer(F, contracts=r"std::sync::mpsc::.*|std::thread::.*|std::mem::drop|" + re.escape(BER) + r".*",
-                    no_inline=r"std::.*|simulation::.*", mode="real")
+    # helpers of the collector that update the accumulators (e.g. an extracted "record one frame" method) are expanded
+    upd_helpers = sorted(o for o in writers if o != T + "do_run")
+    notme = (r"(?!(?:%s)$)" % "|".join(re.escape(h) for h in upd_helpers)) if upd_helpers else ""
+    tr = SiteTracer(F, contracts=notme + r"(?:std::sync::mpsc::.*|std::thread::.*|std::mem::drop|" + re.escape(BER) + r".*)",
+                    no_inline=notme + r"(?:std::.*|simulation::.*)", mode="real")
     env = {}
     tr.bind(rb.params[0], var("self"), env)
     tr.fn_stack.append(rb.path)
@@ -183,7 +209,11 @@ def run(ck, F, tier):
     v = ev.eval(eb.value, env)
     a = single_atom(v) if isinstance(v, Poly) else None
     okt = False
-    if a and atom_fn(a) == "ite":
+    BCHV = var("self.bch")
+    want_m = app("match", BCHV, ((repr(("Some", "_")), app(".frame_errors", app("payload0", BCHV))), (repr("None"), var("self.ldpc.frame_errors"))))
+    if v == want_m:
+        okt = True
+    elif a and atom_fn(a) == "ite":
         c, t_, e_ = atom_args(a)
         okt = "self.bch" in repr(c) and "Some" in repr(c) and field_path(t_)[0] == ("frame_errors",) and "self.bch" in repr(t_) and e_ == var("self.ldpc.frame_errors")
     ck.inst("G3", "errors_for_termination", okt, eb.span, "= bch.frame_errors when the outer code is enabled, else ldpc.frame_errors: %r" % (v,))
